@@ -349,7 +349,13 @@ def finish(ctx, level, level_text=""):
         rdir = os.path.join(OUT, "replays", ctx.pid)
         os.makedirs(rdir, exist_ok=True)
         seen = set()
-        for i, v in enumerate(real[:20]):
+        # one violation per distinct key first, so that every failing family shows up in the output
+        firsts, rest, ks = [], [], set()
+        for v in real:
+            (rest if v["key"] in ks else firsts).append(v)
+            ks.add(v["key"])
+        real = firsts + rest
+        for i, v in enumerate(real[:30]):
             name = re.sub(r"[^A-Za-z0-9_.-]+", "_", v["key"])[:80] or "v%d" % i
             if name in seen:
                 name += "_%d" % i
@@ -360,8 +366,8 @@ def finish(ctx, level, level_text=""):
                                tier=ctx.tier, replay=v["replay"]), fh, indent=1, default=str)
             print("VIOLATION property=%s replay=%s" % (ctx.pid, path))
             print("  " + v["text"][:600])
-        if len(real) > 20:
-            print("  (+%d more violations not written out)" % (len(real) - 20))
+        if len(real) > 30:
+            print("  (+%d more violations not written out)" % (len(real) - 30))
         rc = 1
     cov = dict(
         evaluations=ctx.evaluations,
